@@ -199,4 +199,14 @@ def run(prog, rep):
     rule_registry(prog, rep)
     rule_scope(prog, rep)
     rule_shape(prog, rep)
+    # verdict conditions decided under sibling properties: IsVariableUsageAllowed / AreTypesCompatible
+    # (C29), the type inline fragments are validated against (C18), completeness of the
+    # fragment-cycle search (C21)
+    from .C18 import rule_valtype
+    from .C21 import rule_search
+    from .C29 import rule_assign, rule_varuse
+    rule_varuse(prog, rep)
+    rule_assign(prog, rep)
+    rule_valtype(prog, rep)
+    rule_search(prog, rep)
     rep.note("the registry proves presence of a handler per spec rule, not that the handler's condition is the spec's; verdict agreement with graphql-js is not decided")
